@@ -15,7 +15,7 @@ Reference values (defined in `Morlock/Proofs/ABRef.lean`, no window / table / or
   (`g.ply p ≠ rootPly`), mated (`negInf`) / stalemate (`0`) if no move of `g.moves p` is legal, the leaf
   value at depth 0, otherwise the maximum of `lift (V … (d-1) c)` over the explored legal children `c`
   (`negInf` if none is explored);
-* `Path g ex n p pv` — `pv` consists of at most `n` moves, each explored (`ex.pick`) and legal (`g.push`
+* `Path g ex n p pv` — `pv` consists of at most `n` moves, each explored (`(ex p).pick`) and legal (`g.push`
   succeeds) in the position reached by the previous ones; `Principal g ex le rootPly n p pv` — moreover each
   move attains the negamax value: `lift (V … (n-1) c) = V … n p` along the line;
 * `Q g ex fuel p` — full-window quiescence: `0` if drawn, mated / stalemate if no move is legal, otherwise
@@ -48,7 +48,7 @@ variable {P : Type}
 /-- **C13 (main search).** For every game, exploration, leaf evaluation, depth, position and every proper
     window `alpha < beta` of graded-valid scores (mate-score bounds included), without table and without
     cancellation, the score returned by `alphabeta` is the negamax value `V` clipped to the window. -/
-theorem alphabeta_clip (g : Game P) (ex : Explore) (le : LeafEval) (rootPly : Int) (hev : EvalOk g)
+theorem alphabeta_clip (g : Game P) (ex : P → Explore) (le : LeafEval P) (rootPly : Int) (hev : EvalOk g)
     (K d : Nat) (hK : leafGrade le ≤ K) (hKd : K + d ≤ 127)
     (p : P) (alpha beta : Score) (st : SState) (htt : st.tt.slots.size = 0) (hc : st.cancelAt = none)
     (ha : okN (K + d) alpha) (hb : okN (K + d) beta) (hab : rank alpha < rank beta) :
@@ -61,7 +61,7 @@ theorem alphabeta_clip (g : Game P) (ex : Explore) (le : LeafEval) (rootPly : In
     explored legal moves of length `≤ d` — and a principal variation (`Principal`: every move of it attains
     the negamax value of the position it is played in) whenever the returned score is the exact value —
     and the state still has no table and no cancellation. -/
-theorem alphabeta_any_window (g : Game P) (ex : Explore) (le : LeafEval) (rootPly : Int) (hev : EvalOk g)
+theorem alphabeta_any_window (g : Game P) (ex : P → Explore) (le : LeafEval P) (rootPly : Int) (hev : EvalOk g)
     (K d : Nat) (hK : leafGrade le ≤ K) (hKd : K + d ≤ 127)
     (p : P) (alpha beta : Score) (st : SState) (htt : st.tt.slots.size = 0) (hc : st.cancelAt = none)
     (ha : okN (K + d) alpha) (hb : okN (K + d) beta) :
@@ -78,21 +78,21 @@ theorem alphabeta_any_window (g : Game P) (ex : Explore) (le : LeafEval) (rootPl
   exact ⟨h2, h3, h5.1, h5.2, h1.1, h1.2⟩
 
 /-- The reference value has the grade of its node (in particular it is a valid score). -/
-theorem V_graded (g : Game P) (ex : Explore) (le : LeafEval) (rootPly : Int) (hev : EvalOk g)
+theorem V_graded (g : Game P) (ex : P → Explore) (le : LeafEval P) (rootPly : Int) (hev : EvalOk g)
     (K d : Nat) (hK : leafGrade le ≤ K) (hKd : K + d ≤ 127) (p : P) : okN (K + d) (V g ex le rootPly d p) :=
   V_ok hev ex le rootPly K hK d p hKd
 
 /-- **C13 (quiescence).** For every fuel, position and proper window of graded-valid scores, the score
     returned by `quiesce` is the full-window quiescence value `Q` (cut off at the same fuel) clipped to the
     window. Also for fuel 0, where both are `0`. -/
-theorem quiescence_clip (g : Game P) (ex : Explore) (hev : EvalOk g) (K fuel : Nat) (hKf : K + fuel ≤ 127)
+theorem quiescence_clip (g : Game P) (ex : P → Explore) (hev : EvalOk g) (K fuel : Nat) (hKf : K + fuel ≤ 127)
     (p : P) (alpha beta : Score) (st : SState) (htt : st.tt.slots.size = 0) (hc : st.cancelAt = none)
     (ha : okN (K + fuel) alpha) (hb : okN (K + fuel) beta) (hab : rank alpha < rank beta) :
     Clip (rank alpha) (rank beta) (rank (Q g ex fuel p)) (rank (quiesce g ex fuel p alpha beta st).1) :=
   ((quiesce_recOK hev ex K fuel hKf).spec p alpha beta st ⟨htt, hc⟩ ha hb).2.2.2.1 hab
 
 /-- Quiescence on an arbitrary window: graded-valid result, exact or at least `alpha`, state stays quiet. -/
-theorem quiescence_any_window (g : Game P) (ex : Explore) (hev : EvalOk g) (K fuel : Nat) (hKf : K + fuel ≤ 127)
+theorem quiescence_any_window (g : Game P) (ex : P → Explore) (hev : EvalOk g) (K fuel : Nat) (hKf : K + fuel ≤ 127)
     (p : P) (alpha beta : Score) (st : SState) (htt : st.tt.slots.size = 0) (hc : st.cancelAt = none)
     (ha : okN (K + fuel) alpha) (hb : okN (K + fuel) beta) :
     okN (K + fuel) (quiesce g ex fuel p alpha beta st).1 ∧
@@ -104,7 +104,7 @@ theorem quiescence_any_window (g : Game P) (ex : Explore) (hev : EvalOk g) (K fu
   exact ⟨h2, h3, h1.1, h1.2⟩
 
 /-- The quiescence reference value is a valid score with mate distance at most the fuel. -/
-theorem Q_graded (g : Game P) (ex : Explore) (hev : EvalOk g) (fuel : Nat) (hf : fuel ≤ 127) (p : P) :
+theorem Q_graded (g : Game P) (ex : P → Explore) (hev : EvalOk g) (fuel : Nat) (hf : fuel ≤ 127) (p : P) :
     okN fuel (Q g ex fuel p) :=
   Q_ok hev ex fuel p hf
 
@@ -112,7 +112,7 @@ theorem Q_graded (g : Game P) (ex : Explore) (hev : EvalOk g) (fuel : Nat) (hf :
     never rated below its static evaluation: neither by the full-window quiescence value `Q`, nor by
     `quiesce` on *any* window of graded-valid scores (in particular when the static value is inside the
     window); the latter also never returns less than `alpha`. -/
-theorem standpat (g : Game P) (ex : Explore) (hev : EvalOk g) (K fuel : Nat) (hKf : K + fuel + 1 ≤ 127)
+theorem standpat (g : Game P) (ex : P → Explore) (hev : EvalOk g) (K fuel : Nat) (hKf : K + fuel + 1 ≤ 127)
     (p : P) (hd : g.isDraw p = false) (hl : legalAny g p (g.moves p) = true) :
     rank (heuristicScore (g.eval p)) ≤ rank (Q g ex (fuel + 1) p) ∧
     ∀ (alpha beta : Score) (st : SState), st.tt.slots.size = 0 → st.cancelAt = none →
@@ -129,7 +129,7 @@ theorem standpat (g : Game P) (ex : Explore) (hev : EvalOk g) (K fuel : Nat) (hK
 /-- **C13 (terminal positions).** A position that is not drawn and has no legal move is rated exactly
     `negInf` (mated) if the side to move is in check and exactly `0` (stalemate) otherwise: by the
     reference `Q` and by `quiesce` on every window of graded-valid scores. -/
-theorem quiescence_terminal (g : Game P) (ex : Explore) (hev : EvalOk g) (K fuel : Nat) (hKf : K + fuel + 1 ≤ 127)
+theorem quiescence_terminal (g : Game P) (ex : P → Explore) (hev : EvalOk g) (K fuel : Nat) (hKf : K + fuel + 1 ≤ 127)
     (p : P) (hd : g.isDraw p = false) (hl : legalAny g p (g.moves p) = false) :
     Q g ex (fuel + 1) p = (if g.inCheck p then negInfScore else zeroScore) ∧
     ∀ (alpha beta : Score) (st : SState), st.tt.slots.size = 0 → st.cancelAt = none →
@@ -144,7 +144,7 @@ theorem quiescence_terminal (g : Game P) (ex : Explore) (hev : EvalOk g) (K fuel
 /-- **Enough fuel.** If every line of explored legal moves from `p` ends (drawn position, or no explored
     legal move) in fewer than `fuel` plies (`QDone g ex fuel p`), the reference value is the same for every
     larger fuel, and `quiesce` does not report `fuelOut` (any window, any state). -/
-theorem enough_fuel (g : Game P) (ex : Explore) (fuel : Nat) (p : P) (h : QDone g ex fuel p) :
+theorem enough_fuel (g : Game P) (ex : P → Explore) (fuel : Nat) (p : P) (h : QDone g ex fuel p) :
     (∀ fuel', fuel ≤ fuel' → Q g ex fuel' p = Q g ex fuel p) ∧
     ∀ a b st, (quiesce g ex fuel p a b st).2.fuelOut = st.fuelOut :=
   ⟨Q_stable g ex fuel p h, quiesce_fuelOut g ex fuel p h⟩
@@ -164,7 +164,7 @@ def tiny : Game Nat where
   inCheck := fun p => p == 3
   eval := fun p => 10 * ((p % 8 : Nat) : Int) - 35
 
-def allMoves : Explore := { prio := fun m => m.to, pick := fun _ => true }
+def allMoves : Nat → Explore := fun _ => { prio := fun m => m.to, pick := fun _ => true }
 
 theorem tiny_evalOk : EvalOk tiny := by
   intro p; simp only [tiny]; omega
@@ -226,7 +226,7 @@ theorem chess_evalOk (z : ZTable) : EvalOk (materialGame z) := materialGame_eval
     `newBoard` on a `WFplay` position and is preserved by `pushMove` of generated moves: `inv_newBoard`,
     `inv_push`): the explored quiescence tree is exhausted within 64 plies, the reference `Q` is the same for every
     fuel `≥ 64`, and `quiesce` with fuel 64 does not report `fuelOut`. -/
-theorem chess_enough_fuel (z : ZTable) (ev : Position → Model.Color → Int) (ex : Explore) (hex : CapturesOnly ex)
+theorem chess_enough_fuel (z : ZTable) (ev : Position → Model.Color → Int) (ex : World → Explore) (hex : CapturesOnly ex)
     (w : World) (h : Inv w) :
     QDone (boardGame z ev) ex 64 w ∧
     (∀ fuel', 64 ≤ fuel' → Q (boardGame z ev) ex fuel' w = Q (boardGame z ev) ex 64 w) ∧
@@ -234,7 +234,7 @@ theorem chess_enough_fuel (z : ZTable) (ev : Position → Model.Color → Int) (
   ⟨boardGame_qdone z ev ex hex w h, (boardGame_enough_fuel z ev ex hex w h).1, (boardGame_enough_fuel z ev ex hex w h).2⟩
 
 /-- **C13 (the reference of the main search does not depend on the fuel on the chess game).** -/
-theorem chess_V_fuel_irrelevant (z : ZTable) (ev : Position → Model.Color → Int) (ex qx : Explore) (hq : CapturesOnly qx)
+theorem chess_V_fuel_irrelevant (z : ZTable) (ev : Position → Model.Color → Int) (ex qx : World → Explore) (hq : CapturesOnly qx)
     (rootPly : Int) (fuel : Nat) (hf : 64 ≤ fuel) (d : Nat) (w : World) (h : Inv w) :
     V (boardGame z ev) ex (.quiescence qx fuel) rootPly d w = V (boardGame z ev) ex (.quiescence qx 64) rootPly d w :=
   V_fuel_irrelevant z ev ex qx hq rootPly fuel hf d w h
@@ -249,13 +249,13 @@ section Chess
 set_option maxRecDepth 100000 in
 -- `alphabeta_clip` / `alphabeta_any_window`: depth 3 with quiescence leaves (fuel 64), window (mated in 2, mate in 5)
 example : Clip (rank (mateInXScore (-2))) (rank (mateInXScore 5))
-      (rank (V gX fullExploration (.quiescence capX 64) 1 3 wE))
-      (rank (alphabeta gX fullExploration (.quiescence capX 64) 1 3 wE (mateInXScore (-2)) (mateInXScore 5) {}).1) ∧
-    Path gX fullExploration 3 wE
-      (alphabeta gX fullExploration (.quiescence capX 64) 1 3 wE (mateInXScore (-2)) (mateInXScore 5) {}).2.1 :=
-  ⟨alphabeta_clip gX fullExploration (.quiescence capX 64) 1 gX_evalOk 64 3 (Nat.le_refl _) (by decide) wE (mateInXScore (-2)) (mateInXScore 5) {} rfl rfl
+      (rank (V gX fullX (.quiescence capX 64) 1 3 wE))
+      (rank (alphabeta gX fullX (.quiescence capX 64) 1 3 wE (mateInXScore (-2)) (mateInXScore 5) {}).1) ∧
+    Path gX fullX 3 wE
+      (alphabeta gX fullX (.quiescence capX 64) 1 3 wE (mateInXScore (-2)) (mateInXScore 5) {}).2.1 :=
+  ⟨alphabeta_clip gX fullX (.quiescence capX 64) 1 gX_evalOk 64 3 (Nat.le_refl _) (by decide) wE (mateInXScore (-2)) (mateInXScore 5) {} rfl rfl
       (by decide) (by decide) (by decide),
-   (alphabeta_any_window gX fullExploration (.quiescence capX 64) 1 gX_evalOk 64 3 (Nat.le_refl _) (by decide) wE (mateInXScore (-2)) (mateInXScore 5) {} rfl rfl
+   (alphabeta_any_window gX fullX (.quiescence capX 64) 1 gX_evalOk 64 3 (Nat.le_refl _) (by decide) wE (mateInXScore (-2)) (mateInXScore 5) {} rfl rfl
       (by decide) (by decide)).2.2.1⟩
 
 -- `quiescence_clip` / `quiescence_any_window`: window (-5 pawns-keys, +5)
@@ -295,8 +295,8 @@ example : heuristicScore (gX.eval wE) = heuristicScore 1065353216 ∧ Q gX capX 
 
 set_option maxRecDepth 100000 in
 example (fuel : Nat) (hf : 64 ≤ fuel) (d : Nat) :
-    V gX fullExploration (.quiescence capX fuel) 1 d wE = V gX fullExploration (.quiescence capX 64) 1 d wE :=
-  chess_V_fuel_irrelevant Proofs.exZ (fun pos turn => f32keyOfInt (materialPawns pos turn)) fullExploration capX capX_capturesOnly 1 fuel hf d wE wE_inv
+    V gX fullX (.quiescence capX fuel) 1 d wE = V gX fullX (.quiescence capX 64) 1 d wE :=
+  chess_V_fuel_irrelevant Proofs.exZ (fun pos turn => f32keyOfInt (materialPawns pos turn)) fullX capX capX_capturesOnly 1 fuel hf d wE wE_inv
 
 end Chess
 
